@@ -59,6 +59,19 @@ func (pass *PrefixObjectNames) processStruct(visitor *Visitor, schema *ast.Schem
 	if structDef.HasHint(ast.HintDiscriminatedDisjunctionOfRefs) {
 		disjunction := structDef.Hints[ast.HintDiscriminatedDisjunctionOfRefs].(ast.DisjunctionType)
 		disjunction.DiscriminatorMapping = pass.processDisjunctionMapping(disjunction.DiscriminatorMapping)
+
+		// the branches kept in the hint refer to objects too
+		newBranches := make(ast.Types, 0, len(disjunction.Branches))
+		for _, branch := range disjunction.Branches {
+			newBranch, err := visitor.VisitType(schema, branch.DeepCopy())
+			if err != nil {
+				return ast.Type{}, err
+			}
+
+			newBranches = append(newBranches, newBranch)
+		}
+		disjunction.Branches = newBranches
+
 		structDef.Hints[ast.HintDiscriminatedDisjunctionOfRefs] = disjunction
 		structDef.AddToPassesTrail(fmt.Sprintf("PrefixObjectNames[prefix=%s]", pass.Prefix))
 	}
